@@ -70,6 +70,15 @@ impl NodeHandle {
     ///
     /// Automatically calls [`NodeHandle::dispose_children`].
     pub fn dispose(self) {
+        // Cleanup callbacks can use the reactive API (e.g. create a signal), also when the handle
+        // is disposed from code that runs outside of every root: the node's root is the current
+        // root for the duration of the disposal.
+        let prev = Root::set_global(Some(self.1));
+        self.dispose_inner();
+        Root::set_global(prev);
+    }
+
+    fn dispose_inner(self) {
         // Unsubscribe self from everything it depends on first. Otherwise a cleanup callback that
         // writes to one of these dependencies would re-run this node while it is being disposed,
         // and whatever that run creates would never be disposed.
@@ -115,6 +124,12 @@ impl NodeHandle {
     ///
     /// Also calls cleanup callbacks and removes context values.
     pub fn dispose_children(self) {
+        let prev = Root::set_global(Some(self.1));
+        self.dispose_children_inner();
+        Root::set_global(prev);
+    }
+
+    fn dispose_children_inner(self) {
         // Cleanup callbacks may create new nodes and register new cleanups in this very scope, so
         // keep going until there is nothing left.
         loop {
